@@ -7,6 +7,28 @@ HERE = os.path.dirname(os.path.dirname(os.path.abspath(__file__)))
 
 # property id -> (technique, level text, level note, design ref) ; only built checks are listed
 CHECKS = {
+    'C12': ('exhaustive enumeration of middleware stacks x error-handler tables x request kinds on the real dispatchers, lock-step with '
+            'the reference server extended by an explicit middleware / handler layer; event logs compared',
+            'All stacks of 0..3/4 middlewares over {pass-through, short-circuit, request-rewriting, response-rewriting} x 9 handler tables '
+            '(generic / per-code / several per key / replacing the error, with handlers for the new code) x 18 request kinds x sync/async: '
+            'who ran, in which order, with which request, context and error, and the response, equal the reference.',
+            'trusted: reference layer in props/c12.py + mc/refmodel/server.py; middlewares and handlers do not raise',
+            'DESIGN.md section 5, C12'),
+    'C15': ('explicit-state breadth-first search over registration histories on real MethodRegistry objects with canonical state hashing, '
+            'lock-step with a dict reference model; every canonical state attached to both dispatchers and probed',
+            'All histories of total cost <= 4/6 over add / add(name) / add_methods / view / view(prefix) / merge (operands = reachable '
+            'registries, 3 levels) on prefixes None / a / a.b: registry contents equal the model after every step; every state attached to '
+            'Dispatcher and AsyncDispatcher: each registered name reaches its function, ~12 near misses per name and all private / dunder / '
+            'non-callable view members answer -32601.',
+            'trusted: canonicalisation (prefix, name->function map) - sound because a registry\'s future depends only on that map and its prefix',
+            'DESIGN.md section 5, C15'),
+    'C18': ('exhaustive enumeration of requests (media type x body x status function x path) against the three real HTTP integrations '
+            'in-process, differential against a twin dispatcher called directly and across integrations',
+            '{aiohttp, flask, werkzeug} x 26 media types x 15 bodies x 3 status-by-error functions x 3 path prefixes: documented types (with '
+            'parameters / any case) are relayed with the dispatcher\'s document, JSON content type and status_by_error(codes); nothing -> '
+            'empty 200; other types -> 415 as an HTTP reply without executing anything; non-UTF-8 -> 400.',
+            'trusted: werkzeug / flask test clients, aiohttp make_mocked_request + Application._handle (a raised HTTPException is the response)',
+            'DESIGN.md section 5, C18'),
     'C04': ('exhaustive enumeration of generated programs (all valid python signatures up to a size bound) x all argument lists / '
             'mappings, executed on the real dispatchers; python\'s own binding of a twin function is the reference',
             'All signatures with <= 4/5 parameters over positional-only / positional-or-keyword / keyword-only / *args / **kw x defaults, '
